@@ -1120,7 +1120,7 @@ def main():
     only = os.environ.get('C14_ONLY')
     if only:
         cfgs = [cf for cf in cfgs if only in '%(api)s/%(method)s/%(dim)dD' % cf]
-    ncases = 12 if a.tier == "quick" else 60
+    ncases = 8 if a.tier == "quick" else 60
     if os.environ.get('C14_NCASES'):        # debugging aid
         ncases = int(os.environ['C14_NCASES'])
     if a.broken:
